@@ -137,8 +137,16 @@ def run_history(ctx, hist, tag):
             cands = [k for k in before if not k.startswith("gen/")] or ["cmd/user/main.go"]
             target = os.path.join(outdir, cands[st.get("pick", 0) % len(cands)])
             os.makedirs(os.path.dirname(target), exist_ok=True)
-            with open(target, "a") as fh:
-                fh.write("\n// user edit %d\n" % si)
+            how = st.get("how", "append")
+            if how == "truncate":
+                open(target, "w").close()  # the user emptied the file (or an editor crashed while saving it)
+            elif how == "replace":
+                with open(target, "w") as fh:
+                    fh.write("package main\n\n// rewritten by the user at step %d\n" % si)
+            else:
+                with open(target, "a") as fh:
+                    fh.write("\n// user edit %d\n" % si)
+            ctx.fault_counts["user_edit_" + how] = ctx.fault_counts.get("user_edit_" + how, 0) + 1
             os.utime(target, ns=(1600000000 * 10**9 + si, 1600000000 * 10**9 + si))
             continue
         if kind == "crashed-cleanup":
@@ -217,8 +225,14 @@ def gen_history(rnd, n_specs, crash_ops):
     steps = []
     n = 2 + rnd.randrange(5)
     for i in range(n):
-        k = rnd.choices(["gen", "example", "user-edit", "design-edit", "crashed-gen", "failed-gen", "crashed-cleanup"], [6, 3, 2, 2, 3, 1, 1])[0]
+        k = rnd.choices(["gen", "example", "user-edit", "design-edit", "crashed-gen", "failed-gen", "crashed-cleanup", "crashed-example"], [6, 3, 3, 2, 3, 1, 1, 1])[0]
         st = {"kind": k}
+        if k == "crashed-example":
+            # `goa example` dying part-way: whatever it left (whole, empty or torn files) now "exists"
+            st = {"kind": "example", "label": "crashed-example", "fault": "crash@%d" % rnd.randrange(1, 120) + (":torn=%d" % rnd.randrange(1000) if rnd.random() < 0.5 else "")}
+            k = "example"
+        if k == "user-edit":
+            st["how"] = rnd.choices(["append", "truncate", "replace"], [3, 2, 1])[0]
         if k in ("gen", "crashed-gen", "failed-gen", "example"):
             st["maporder"] = rnd.choice(["sorted", "reverse", "seed:%d" % rnd.randrange(1 << 30), "seed:%d" % rnd.randrange(1 << 30), ""])
             st["clock"] = rnd.choice([0, 1700000000, 946684800, 4102444800])
@@ -275,7 +289,7 @@ def check(prop, tier, seed):
     quick = tier == "quick"
     n_specs = 3 if quick else 10
     specdir = work.path("specs")
-    sh([designgen, "-seed", str(seed * 100 + 7), "-n", str(n_specs * 3), "-out", specdir])
+    sh([designgen, "-seed", str(seed * 100 + 7), "-n", str(n_specs * 3), "-out", specdir, "-focus", "dir"])
     ctx = Ctx(work, work.path("goa"), [])
     # keep specs goa can generate
     cands = [open(os.path.join(specdir, "d%d.json" % i)).read() for i in range(n_specs * 3)]
